@@ -25,6 +25,7 @@ from .sym import (PathAbort, PyExc, SBool, SFloat, SInt, SStr, SV, Unsupported,
                   mk_bool, mk_float, mk_int, mk_str)
 
 MAIN_TIMEOUT_MS = int(os.environ.get('PYVC_TIMEOUT_MS', '10000'))
+MAIN_RLIMIT = int(os.environ.get('PYVC_RLIMIT', '60000000'))
 CVC5 = '/usr/bin/cvc5'
 OLDZ3 = '/usr/bin/z3'
 
@@ -84,7 +85,7 @@ def check_valid(pc, goal, timeout_ms=None, portfolio=True):
     else:
         goal_t = goal
     s = z3.Solver()
-    s.set('timeout', timeout_ms)
+    s.set('rlimit', MAIN_RLIMIT)
     neg = z3.Not(goal_t)
     rel = relevant(pc, symbols_of(neg))
     for c in rel:
@@ -102,7 +103,7 @@ def check_valid(pc, goal, timeout_ms=None, portfolio=True):
             # the query, solve them separately and merge the models
             rest = [c for c in pc if not any(c is k for k in rel)]
             s2 = z3.Solver()
-            s2.set('timeout', timeout_ms)
+            s2.set('rlimit', MAIN_RLIMIT)
             for c in rest:
                 s2.add(c)
             if s2.check() == z3.sat:
@@ -120,7 +121,7 @@ def check_valid(pc, goal, timeout_ms=None, portfolio=True):
         return Verdict('unsat', 'z3-4.8', ms + ms2 + ms3)
     if res == 'sat' or res3 == 'sat':
         # a model from the CLI back ends is not parsed: retry z3 API without timeout pressure
-        s.set('timeout', timeout_ms * 4)
+        s.set('rlimit', MAIN_RLIMIT * 4)
         r = s.check()
         if r == z3.sat:
             return Verdict('sat', 'z3-5.1', ms + ms2 + ms3, model=s.model())
@@ -601,7 +602,7 @@ class Verifier:
         return True, res
 
     # -- verification of one contract ------------------------------------------------
-    def verify_contract(self, c):
+    def verify_contract(self, c, only=None):
         rep = FunctionReport(c)
         t0 = time.time()
         try:
@@ -623,6 +624,8 @@ class Verifier:
         scenarios = expand_scenarios(c.params)
         rep.scenarios = len(scenarios)
         for si, scen in enumerate(scenarios):
+            if only is not None and si != only:
+                continue
             label = ','.join(f'{k}:{dom_label(v)}' for k, v in scen.items())
             n_before = len(rep.records)
             paths_before = rep.paths
@@ -664,6 +667,10 @@ class Verifier:
                 target = closure
                 if c.closure_env is not None:
                     target = self.make_closure(c, closure, args, names)
+                elif c.free_vars:
+                    byname = dict(zip(names, args))
+                    fenv = Env({k: byname[k] for k in c.free_vars}, None, closure.module)
+                    target = Closure(closure.node, fenv, closure.module, closure.name)
                 result = self.interp.call_function(target, call_args, call_kwargs)
                 outcome = ('return', result)
             except PyExc as e:
@@ -746,7 +753,7 @@ class Verifier:
         return found
 
     # -- lemmas ------------------------------------------------------------------------
-    def verify_lemma(self, lem):
+    def verify_lemma(self, lem, only=None):
         c = S.Contract(target=f'{lem.body.__module__}:{lem.body.__name__}', prop=lem.prop,
                        params=lem.params, requires=lem.requires, name=f'lemma/{lem.name}',
                        modular=lem.modular)
@@ -766,7 +773,9 @@ class Verifier:
         scenarios = expand_scenarios(lem.params)
         rep.scenarios = len(scenarios)
         ex = self.explorer
-        for scen in scenarios:
+        for si, scen in enumerate(scenarios):
+            if only is not None and si != only:
+                continue
             label = ','.join(f'{k}:{dom_label(v)}' for k, v in scen.items())
             names = list(scen)
 
